@@ -48,18 +48,34 @@ class Session:
         self.calls_primitive = 0
         self.calls_opaque = 0
         self.prims: set = set()
+        self.prims_referenced: set = set()
+        self.prim_usage: dict = {}
+        self._created: list = []
 
     def interp(self) -> Interp:
         self.interps += 1
         it = Interp(self.p)
         it._session = self
+        self._created.append(it)
         return it
 
+    def absorb_all(self):
+        """Absorb every interpreter a rule created and did not hand back (what a check 'met' must not depend on a rule remembering to call absorb)."""
+        for it in self._created:
+            if not getattr(it, "_absorbed", False):
+                self.absorb(it)
+
     def absorb(self, it: Interp):
+        if getattr(it, "_absorbed", False):
+            return
+        it._absorbed = True
         self.calls_resolved += it.calls_resolved
         self.calls_primitive += it.calls_primitive
         self.calls_opaque += it.calls_opaque
         self.prims |= it.prim_used
+        self.prims_referenced |= it.prim_referenced
+        for k, shapes in it.prim_usage.items():
+            self.prim_usage.setdefault(k, set()).update(shapes)
 
     def stats(self):
         return {
@@ -219,6 +235,9 @@ def borrow(chk, S, into_rule, from_pid: str, select):
         except AnalysisError as e:
             lender.analysis_error(str(e))
         finally:
+            S2.absorb_all()
+            lender.prims_met = set(S2.prims)
+            lender.prim_usage = {k: set(v) for k, v in S2.prim_usage.items()}
             T._TABLE.clear()
             T._TABLE.update(snap[0])
             T._COUNTER[0] = snap[1]
